@@ -79,6 +79,14 @@ def gen_cases(ctx: Ctx):
     for k in range(3 if ctx.thorough() else 1):
         add(interp="lsq_poly", order=3, nv=7, tgrid=(0, 150, 4), system=None, keys=MIXED[:9], law="power", edge_of_range=True,
             ntv=int([21, 16, 33][(k + ctx.seed) % 3]))
+    # 3d. "every valid configuration": the static table carries its OWN number of rows and volume column (static runs on fewer or
+    #     more volumes than the phonon file, also listed in another order), and the phonon file may give a Γ acoustic frequency as
+    #     exactly 0.0 (the physically exact value) — the calculation completes with finite results
+    for k, sm in enumerate(["fewer", "more"] if ctx.thorough() else [["fewer", "more"][ctx.seed % 2]]):
+        add(interp="lsq_poly", order=3, nv=8, tgrid=(0, 100, 4), system=None, keys=MIXED[:9] + [MIXED[9 + k]], law="power",
+            static_mesh=sm, lattice=bool(k % 2))
+    for k, it in enumerate(["lsq_poly", "spline", "pchip"] if ctx.thorough() else ["lsq_poly"]):
+        add(interp=it, order=3, nv=7, tgrid=(0, 100, 4), system=None, keys=MIXED[:9], law="power", gamma_acoustic="zero")
     # 4. random mixtures
     n_rand = 250 if ctx.thorough() else 6
     for _ in range(n_rand):
@@ -101,9 +109,13 @@ def build(case, seed):
                 "elast": {"settings": {"mode_gamma": {"interpolator": case["interp"], "order": case["order"]}}}}
     if case.get("sym_flags"):
         settings["elast"]["settings"]["symmetry"] = dict(case["sym_flags"])
-    return synth.make_dataset(rng, nv=case["nv"], nq=case.get("nq", 2), na=case.get("na", 2), system=case.get("system"),
-                              keys=case.get("keys"), lattice=case.get("lattice", False), law=case.get("law", "power"),
-                              settings=settings)
+    ds = synth.make_dataset(rng, nv=case["nv"], nq=case.get("nq", 2), na=case.get("na", 2), system=case.get("system"),
+                            keys=case.get("keys"), lattice=case.get("lattice", False), law=case.get("law", "power"),
+                            settings=settings, static_mesh=case.get("static_mesh", "same"))
+    if case.get("gamma_acoustic") == "zero":
+        ds.freqs[:, 0, :3] = 0.0
+        ds.freqs[0, 0, 1] = -0.1234       # one small negative residue next to exact zeros, as DFPT output mixes them
+    return ds
 
 
 def classify_nonfinite(bad: numpy.ndarray, t_array, v_array, sampled_v):
